@@ -686,7 +686,11 @@ func (rdb *RDB) get(key []byte, ctx *Context) (data []byte, err error) {
 	cachedEntry, ok := ctx.cache[string(key)]
 
 	if ok {
-		data = cachedEntry.data
+		// an entry left by FindClosest for a search key that does not exist holds the
+		// preceding key's data: the searched key itself is known to be absent
+		if bytes.Equal(cachedEntry.key, key) {
+			data = cachedEntry.data
+		}
 	} else {
 		data, err = rdb.db.Get(rdb.readOptions, key)
 		if err != nil {
